@@ -601,18 +601,17 @@ func (p *Parser) parseCommodityDirective(startPos Position) ast.Directive {
 }
 
 func (p *Parser) parseIncludeDirective(startPos Position) ast.Directive {
-	pathStart := p.current.Pos
-
-	for p.current.Type != TokenNewline && p.current.Type != TokenEOF && p.current.Type != TokenComment {
-		p.advance()
-	}
-
-	// the path is the text as written, blanks and quotes inside it included:
-	// token values drop them ("2024 budget.journal" came out as
-	// "2024budget.journal")
+	// the path is the text as written up to a comment or the end of the line,
+	// blanks, quotes and brackets inside it included: tokens drop or join them
+	// ("2024 budget.journal" came out as "2024budget.journal", and a word that
+	// opens a bracket ran on through the blanks and the comment behind it)
 	pathStr := ""
-	if pathStart.Offset <= p.lastEnd.Offset && p.lastEnd.Offset <= len(p.lexer.input) {
-		pathStr = strings.TrimSpace(p.lexer.input[pathStart.Offset:p.lastEnd.Offset])
+	pathStart, pathEnd := p.current.Pos, p.current.Pos
+	switch p.current.Type {
+	case TokenNewline, TokenEOF, TokenComment:
+	default:
+		p.current = p.lexer.RescanAsNote(p.current.Pos)
+		pathStr, pathStart, pathEnd = p.current.Value, p.current.Pos, p.current.End
 	}
 	if pathStr == "" {
 		p.error("expected file path")
@@ -622,8 +621,8 @@ func (p *Parser) parseIncludeDirective(startPos Position) ast.Directive {
 
 	inc := ast.Include{
 		Path:      pathStr,
-		Range:     ast.Range{Start: toASTPosition(startPos), End: toASTPosition(p.lastEnd)},
-		PathRange: ast.Range{Start: toASTPosition(pathStart), End: toASTPosition(p.lastEnd)},
+		Range:     ast.Range{Start: toASTPosition(startPos), End: toASTPosition(pathEnd)},
+		PathRange: ast.Range{Start: toASTPosition(pathStart), End: toASTPosition(pathEnd)},
 	}
 	p.skipToNextLine()
 	return inc
